@@ -271,6 +271,73 @@ pub fn run(ctx: &mut Ctx) {
     });
     ctx.mark_exhaustive("all 2^32 (hello version, cipher id) pairs through ServerHello get_cipher (thorough tier: also through cipher_suites (TLS, DTLS) and get_ciphers; quick tier: those for ~5800 versions x all ids)");
 
+    // ------------------------------------------------ the random values the RFCs give a meaning to (HelloRetryRequest, the two
+    // downgrade sentinels, all-zero, all-ones) in constructed and parsed ServerHello / ClientHello values, crossed
+    // with all 256 compression values and several cipher / version / session-id classes: stored and returned unchanged
+    ctx.floor("special-randoms.cases", 256 * 5);
+    ctx.sweep("special-randoms", 256, |ctx, idx| {
+        let co = idx as u8;
+        let mut dg12 = [0x55u8; 32];
+        dg12[24..].copy_from_slice(&[0x44, 0x4f, 0x57, 0x4e, 0x47, 0x52, 0x44, 1]);
+        let mut dg11 = dg12;
+        dg11[31] = 0;
+        let rands: [[u8; 32]; 5] = [crate::gen::HRR_RANDOM, dg12, dg11, [0u8; 32], [0xffu8; 32]];
+        let sid = [9u8; 32];
+        for rd in rands.iter() {
+            for (v, c, sidl, ext) in [(0x0303u16, 0x1301u16, 0usize, Some(&[0u8, 43, 0, 2, 3, 4][..])), (0x0303, 0xc02f, 32, None), (0x0301, 0x0000, 1, Some(&[][..])), (0xfefd, 0x1302, 0, None)] {
+                ctx.count("special-randoms.cases");
+                ctx.eval();
+                let sido = if sidl == 0 { None } else { Some(&sid[..sidl]) };
+                let sh = TlsServerHelloContents::new(v, rd, sido, c, co, ext);
+                let ok = sh.version == TlsVersion(v) && same(sh.random, rd) && same_opt(sh.session_id, sido) && sh.cipher == TlsCipherSuiteID(c) && sh.compression == TlsCompressionID(co) && same_opt(sh.ext, ext) && sh.get_version() == TlsVersion(v);
+                if !ok {
+                    ctx.violation("c15:server-new:arguments-not-stored".into(), json!({"version": v, "cipher": c, "compression": co, "random_hex": hex_short(rd), "stored": format!("{:.300?}", sh)}));
+                }
+                let ch = TlsClientHelloContents::new(v, rd, sido, vec![TlsCipherSuiteID(c)], vec![TlsCompressionID(co), TlsCompressionID(0)], ext);
+                check_trait(ctx, "tls-new-special-random", &ch, TlsVersion(v), rd, sido, &ch.ciphers, &ch.comp, ext);
+                if ch.comp != vec![TlsCompressionID(co), TlsCompressionID(0)] || ch.ciphers != vec![TlsCipherSuiteID(c)] {
+                    ctx.violation("c15:client-new:arguments-not-stored".into(), json!({"version": v, "compression": co, "random_hex": hex_short(rd)}));
+                }
+            }
+        }
+        ctx.shape(&("special-randoms", idx / 16));
+    });
+
+    // ------------------------------------------------ fields that are overlapping / adjacent views of ONE buffer (a caller that
+    // builds a hello from slices of a capture, e.g. a random taken as a longer slice than 32 bytes): the accessors are
+    // functions of each field's own bytes, wherever the other fields live
+    ctx.floor("overlap.cases", 4000);
+    ctx.sweep("overlapping-views", 96, |ctx, idx| {
+        let mut rng = Rng::new(idx ^ 0x0E71A9);
+        let buf = rng.bytes(256);
+        let r0 = (idx % 4) as usize * 3;
+        let rl = [32usize, 32, 33, 48, 64, 100, 28, 5][(idx / 4 % 8) as usize];
+        let random = &buf[r0..r0 + rl];
+        let sl_choices = [1usize, 8, 16, 32, 31, 0];
+        let sl = sl_choices[(idx / 32) as usize % 6];
+        let ciphers = vec![TlsCipherSuiteID(0x1301), TlsCipherSuiteID(0xc02f)];
+        let comp = vec![TlsCompressionID(0)];
+        // the session id starts before, at every offset inside, at the end of, and after the random
+        for s0 in 0..=(r0 + rl + 4) {
+            let sid = if sl == 0 { None } else { Some(&buf[s0..s0 + sl]) };
+            for e0 in [s0, r0, r0 + 4, r0 + rl, s0 + sl] {
+                let ext = if (s0 + e0) % 3 == 0 { None } else { Some(&buf[e0..e0 + 12]) };
+                ctx.count("overlap.cases");
+                let ch = TlsClientHelloContents::new(0x0303, random, sid, ciphers.clone(), comp.clone(), ext);
+                check_trait(ctx, "tls-new-overlapping-views", &ch, TlsVersion(0x0303), random, sid, &ch.ciphers, &ch.comp, ext);
+                let cookie = &buf[s0..s0 + 3];
+                let dh = DTLSClientHello { version: TlsVersion(0xfefd), random, session_id: sid, cookie, ciphers: ciphers.clone(), comp: comp.clone(), ext };
+                check_trait(ctx, "dtls-literal-overlapping-views", &dh, TlsVersion(0xfefd), random, sid, &dh.ciphers, &dh.comp, ext);
+                let sh = TlsServerHelloContents::new(0x0303, random, sid, 0x1301, 0, ext);
+                ctx.eval();
+                if !(same(sh.random, random) && same_opt(sh.session_id, sid) && same_opt(sh.ext, ext)) {
+                    ctx.violation("c15:server-new:arguments-not-stored".into(), json!({"overlapping_views": true, "random_at": r0, "random_len": rl, "session_id_at": s0}));
+                }
+            }
+        }
+        ctx.shape(&("overlap", rl, sl, r0));
+    });
+
     // ------------------------------------------------ call history: the accessors are functions of the hello alone. Each id of
     // interest is looked up as the FIRST accessor call of a fresh thread (no earlier call can have left
     // anything behind), then again after other lookups on the same thread.
